@@ -8,7 +8,7 @@ import ast
 import z3
 
 from . import front
-from .sym import forall
+from .sym import forall, _sort_id
 from .sym import (Val, Con, ZV, TupV, SetV, DictV, ListV, OptV, StrV, Loc, NONE,
                   Type, TScalar, TInt, TReal, TBool, TStr, TSet, TDict, TList,
                   TTuple, TOpt, OutOfSubset, deref, coerce_term, ite, usort,
@@ -269,8 +269,13 @@ class Spec:
         snap = X.old_stack[-1]
         cur_h, cur_g = X.heap, X.ghost
         X.heap, X.ghost = dict(snap['heap']), dict(snap['ghost'])
+        fr2 = fr
+        if snap.get('params'):
+            fr2 = Frame(fr.module, parent=fr)
+            fr2.spec = True
+            fr2.vars.update(snap['params'])
         try:
-            v = X.ev(node.args[0], fr)
+            v = X.ev(node.args[0], fr2)
             return freeze(v)
         finally:
             X.heap, X.ghost = cur_h, cur_g
@@ -588,9 +593,10 @@ class Spec:
             elt = deref(X.ev(node.elt, sub))
         finally:
             X.spec_mode -= 1
-        if any(k not in heap_before or any(not a.eq(b) for a, b in zip(v, heap_before[k]))
-               for k, v in X.heap.items()):
-            X.unsupported('comprehension with side effects', node)
+        for k, v in X.heap.items():
+            before = heap_before.get(k) or X.initial_leaves(k)
+            if any(not a.eq(b) for a, b in zip(v, before)):
+                X.unsupported('comprehension with side effects', node)
         E = type_of_val(elt)
         ats = [z3.Const(X.fresh_name('cmp_at'), z3.ArraySort(z3.IntSort(), srt))
                for srt in E.leaf_sorts()]
@@ -618,7 +624,7 @@ class Spec:
                            patterns=[z3.MultiPattern(emb(j), emb(j2))]))
         X.assume(forall([i], z3.Implies(z3.And(0 <= i, i < seq.n, cond),
                                            z3.And(0 <= inv(i), inv(i) < n, emb(inv(i)) == i)),
-                           patterns=[inv(i)]))
+                           patterns=[inv(i)] + [sa[i] for sa in seq.ats]))
         out = ListV(E, n, ats)
         out.filter_of = (seq, emb, inv)
         return out
@@ -742,7 +748,7 @@ class Spec:
         X.old_stack.append(snap)
         try:
             for gname, gtext in ct.ghost_results.items():
-                if isinstance(gtext, tuple) and gtext[0] == 'local':
+                if isinstance(gtext, tuple) and gtext[0] in ('local', 'expr'):
                     env[gname] = X.fresh(gtext[2], 'gr_' + gname)
                     continue
                 if isinstance(gtext, Type):
@@ -783,6 +789,9 @@ class Spec:
             self.havoc_target(X, m, env)
 
     def havoc_target(self, X, m, env):
+        if callable(m):
+            m(X, env)
+            return
         if m.startswith('ghost:'):
             g = m[6:]
             self.havoc_ghost(X, g)
@@ -851,6 +860,9 @@ class Spec:
         kl = self.sort_classes[obj.t.sort().name()]
         fields = kl.all_fields()
         names = kl.client_fields if kl.client_fields is not None else list(fields)
+        site = self.site_config(X, None)
+        if 'client_fields' in site:
+            names = site['client_fields']
         for f in names:
             if isinstance(fields[f], ClassLevel):
                 continue
@@ -1041,9 +1053,20 @@ class FunctionRun:
             finally:
                 X.old_stack.pop()
             return 'raise:' + matched
+        if isinstance(ct.returns, Type) and not isinstance(result, Loc):
+            try:
+                result = ct.returns.from_leaves(ct.returns.to_leaves(result))
+            except (OutOfSubset, AssertionError):
+                pass
         env2 = dict(env)
         env2['result'] = result
         X.final_locals = dict(fr.vars)
+        X.exit_result = result
+        for n in names:
+            if isinstance(env.get(n), (ListV, SetV, DictV)) and n in fr.vars \
+                    and isinstance(deref(fr.vars[n]), (ListV, SetV, DictV)):
+                env2[n] = deref(fr.vars[n])      # mutated in place: current contents
+        snap['params'] = {n: env[n] for n in names if isinstance(env.get(n), (ListV, SetV, DictV))}
         for gname in ct.ghost_results:
             g = X.named_ghosts.get(gname)
             if isinstance(ct.ghost_results[gname], tuple):
@@ -1055,6 +1078,8 @@ class FunctionRun:
             for name, text, role in ct.ensures:
                 self.check_clause(X, '%s:%s' % (short, name), text, env2, m, role, 'ensures')
             self.check_frame(X, ct, env, snap, short)
+            for pc_ in getattr(ct, 'path_checks', []):
+                pc_(X, short)
             X.oblige(short + ':canary', z3.BoolVal(False), kind='canary', role='aux',
                      assume_after=False)
         finally:
@@ -1067,6 +1092,17 @@ class FunctionRun:
         """The ghost result was not produced on this path (loop not reached):
         any enumeration of the declared set will do."""
         gr = ct.ghost_results[gname]
+        if isinstance(gr, tuple) and gr[0] == 'expr':
+            # witness chosen by the callee: a spec expression over the exit state
+            X.old_stack.append(snap)
+            try:
+                env_ = dict(env)
+                env_['result'] = getattr(X, 'exit_result', NONE)
+                for n_, v_ in getattr(X, 'final_locals', {}).items():
+                    env_.setdefault(n_, v_)
+                return self.spec.eval_spec(X, gr[1], env_, m)
+            finally:
+                X.old_stack.pop()
         if isinstance(gr, tuple) and gr[0] == 'local':
             v = getattr(X, 'final_locals', {}).get(gr[1])
             if v is not None and not (isinstance(v, Con) and v.v is None):
@@ -1143,7 +1179,8 @@ def split_goal(f, hyps=(), depth=0):
         vs = []
         for i in range(f.num_vars()):
             _sk[0] += 1
-            vs.append(z3.Const('sk!%s!%d' % (f.var_name(i), _sk[0]), f.var_sort(i)))
+            vs.append(z3.Const('sk!%s!%s!%d' % (f.var_name(i), _sort_id(f.var_sort(i)), _sk[0]),
+                               f.var_sort(i)))
         body = z3.substitute_vars(f.body(), *reversed(vs))
         return split_goal(body, hyps, depth + 1)
     if z3.is_and(f):
